@@ -3,6 +3,7 @@ package util
 import (
 	"go/ast"
 	"go/types"
+	"strconv"
 	"strings"
 )
 
@@ -25,7 +26,7 @@ func (m *ImportMap) Add(spec *ast.ImportSpec, pkg *types.Package) {
 		return
 	}
 
-	fullPath := strings.Trim(spec.Path.Value, `"`)
+	fullPath := ImportPath(spec)
 
 	var alias string
 	if spec.Name != nil {
@@ -43,6 +44,18 @@ func (m *ImportMap) Add(spec *ast.ImportSpec, pkg *types.Package) {
 		FullPath:    fullPath,
 		PackageName: packageName,
 	})
+}
+
+// ImportPath returns the import path of a spec; the path may be written as an
+// interpreted ("path") or as a raw (`path`) string literal
+func ImportPath(spec *ast.ImportSpec) string {
+	if spec == nil || spec.Path == nil {
+		return ""
+	}
+	if path, err := strconv.Unquote(spec.Path.Value); err == nil {
+		return path
+	}
+	return strings.Trim(spec.Path.Value, "\"`")
 }
 
 // Find searches for an import by short name with the following priority:
